@@ -217,3 +217,92 @@ def validator_refusals(ctx, prog):
                 ok = ok and len(caps) == 1 and caps[0].replace(" ", "") == ("param:blockhash[%s]" % start).replace(" ", "")
                 why += "; closure %s capturing %s" % (ce[:60], caps)
     ctx.ob(RV, "RLE validator: a new run is checked as `any symbol of blockhash[pos-1 ..= pos] differs from blockhash[pos-2]`", ok, why, f.loc())
+
+
+def expand_step(ctx, prog):
+    """expand_block_hash_using_rle: what one RLE entry does - the step of the decoder as a table of effects"""
+    import re
+    from .engine import loop_carried, region, _atoms_at, _norm_cmp
+    RS = "SA-STEP"
+    ctx.rule(RS, "RLE decoder step: for every entry before the terminator (position != 0) and under no other condition: copy in[src .. pos] to out[dst ..], "
+             "then fill out[dst + (pos-src) .. + len] with the symbol in[pos] read in this very iteration, then src += pos-src, dst += (pos-src)+len, "
+             "expanded length += len; nothing but these three counters and the iterator is carried from one entry to the next; after the loop the "
+             "tail in[src ..] is copied up to the expanded length and the rest of out is zeroed")
+    f = prog.fn("hash_dual::algorithms::expand_block_hash_using_rle")
+    ctx.visit(f)
+    sy = Sym(f)
+    H, sw, some, none, order = region(f)
+    # the loop body proper: blocks that can still return to the loop header (the `break` path leaves the loop)
+    inloop = set(b for b in order if H in f.reach_from(b))
+    carried = loop_carried(f)
+    counters = [l for l in carried if "Iter" not in f.locals[l]["ty"]]
+    tys = sorted(f.locals[l]["ty"] for l in counters)
+    ok = tys == ["u8", "usize", "usize"]
+    ctx.ob(RS, "expand: only the two offsets, the expanded length and the iterator are carried from one RLE entry to the next", ok,
+           "carried: %s" % [(f.locals[l]["name"], f.locals[l]["ty"]) for l in carried], f.loc())
+    if not ok:
+        return
+    ITEM = None
+    for i, t in f.calls():
+        if callee_of(t).endswith("rle_encoding::decode") and i in inloop:
+            ITEM = canon(strip(sy.operand(t["args"][0])))
+    DEC = "internals::hash_dual::rle_encoding::decode(%s)" % ITEM
+
+    def N(txt):
+        txt = txt.replace(DEC + ".0", "POS").replace(DEC + ".1", "LEN")
+        return re.sub(r"^\((\w+)WithOverflow\((.*)\)\)\.0$", r"\1(\2)", txt)
+    # counter updates inside the loop
+    ups = {}
+    for l in counters:
+        me = "local:%s_%d" % (f.locals[l]["name"], l)
+        ds = [N(canon(strip(sy.rvalue(x)))) for (b, _i, k, x) in f.defs.get(l, []) if k == "rv" and b in inloop]
+        ups[me] = ds
+    src = [m for m, ds in ups.items() if len(ds) == 1 and re.match(r"^Add\(%s,(local:\w+|Sub\(\(POS as usize\),%s\))\)$" % (re.escape(m), re.escape(m)), ds[0])]
+    ln = [m for m, ds in ups.items() if ds == ["Add(%s,LEN)" % m]]
+    ok = len(src) == 1 and len(ln) == 1
+    SRC = src[0] if src else None
+    dst = [m for m in ups if m not in src and m not in ln]
+    DST = dst[0] if len(dst) == 1 else None
+    COPY = r"(?:local:\w+|Sub\(\(POS as usize\),%s\))" % re.escape(SRC or "?")
+    if ok and DST:
+        ok = len(ups[DST]) == 1 and re.match(r"^Add\(%s,Add\(%s,\(LEN as usize\)\)\)$" % (re.escape(DST), COPY), ups[DST][0]) is not None
+    # the explaining local `copy_len`, if any, is pos - src
+    for m in re.findall(r"local:(\w+)_(\d+)", " ".join(sum(ups.values(), []))):
+        l = int(m[1])
+        if l in counters:
+            continue
+        ds = [N(canon(strip(sy.rvalue(x)))) for (b, _i, k, x) in f.defs.get(l, []) if k == "rv" and b in inloop]
+        if ds and SRC and ds != ["Sub((POS as usize),%s)" % SRC]:
+            ok = False
+    ctx.ob(RS, "expand: per entry src += pos-src, dst += (pos-src)+len, expanded length += len", bool(ok), "updates in the loop: %s" % ups, f.loc())
+    # the fill
+    fills = [(i, t) for i, t in f.calls() if callee_of(t).endswith("::fill") and i in inloop]
+    ok = len(fills) == 1
+    why = "%d fills in the loop" % len(fills)
+    if ok:
+        i, t = fills[0]
+        v = N(canon(strip(sy.operand(t["args"][1]))))
+        d = N(canon(strip(sy.operand(t["args"][0]))))
+        ats = [a for a in (_norm_cmp(x) for x in _atoms_at(f, sy, i)) if not (a[0] == "truth" and a[1].startswith("discr("))]
+        ats = [(a[0], N(a[1]), N(a[2]) if isinstance(a[2], str) else a[2]) for a in ats]
+        # beliefs of debug builds (bounds of the slices) are not conditions of the step
+        ats = [a for a in ats if not (a[0] in ("Lt", "Le") and ("core::slice::<impl [T]>::len(" in str(a[2]) or str(a[1]).startswith("Add(")))]
+        ok = v == "param:blockhash_in[(POS as usize)]" and ats == [("Ne", "POS", "0")] and \
+            re.match(r"^core::array::<impl core::ops::IndexMut<I> for \[T; N\]>::index_mut\(param:blockhash_out,core::ops::Range::Range\{Add\(%s,%s\),Add\(Add\(%s,%s\),\(LEN as usize\)\)\}\)$" % (re.escape(DST or "?"), COPY, re.escape(DST or "?"), COPY), d) is not None
+        why = "fill(%s, %s) under %s" % (d[-110:], v, ats)
+    ctx.ob(RS, "expand: per entry out[dst+(pos-src) .. +len] is filled with in[pos] of this entry, under `pos != 0` only", ok, why, f.loc())
+    # the copies
+    cps = [(i, t) for i, t in f.calls() if "expand_block_hash_using_rle::{closure" in callee_of(t)]
+    inl = [(i, t) for i, t in cps if i in inloop]
+    out = [(i, t) for i, t in cps if i not in inloop]
+    ok = len(inl) == 1 and len(out) == 1
+    why = "%d copies in the loop, %d after it" % (len(inl), len(out))
+    if ok:
+        a_in = N(canon(strip(sy.operand(inl[0][1]["args"][1]))))
+        a_out = N(canon(strip(sy.operand(out[0][1]["args"][1]))))
+        ok = re.match(r"^Tuple\{param:blockhash_out,%s,%s,%s\}$" % (re.escape(DST or "?"), re.escape(SRC or "?"), COPY), a_in) is not None and \
+            a_out == "Tuple{param:blockhash_out,%s,%s,Sub((%s as usize),%s)}" % (DST, SRC, ln[0] if ln else "?", DST)
+        ats = [a for a in (_norm_cmp(x) for x in _atoms_at(f, sy, inl[0][0])) if not (a[0] == "truth" and a[1].startswith("discr("))]
+        ok = ok and [(a[0], N(a[1]), a[2]) for a in ats] == [("Ne", "POS", "0")]
+        why = "in loop copy%s; tail copy%s" % (a_in[5:], a_out[5:])
+    ctx.ob(RS, "expand: per entry copy(out, dst, src, pos-src) under `pos != 0` only; after the loop copy(out, dst, src, expanded length - dst)", ok, why, f.loc())
